@@ -1,6 +1,7 @@
 """C16 — adjustable context nodes. `case <id> <kind> <gridkind> <coords>`; ops `node <coords>` (fresh node),
 `grid <x,y,z,t=v;…>` (fresh grid filled through ArrayGrid::set), `set <x,y,z,t> <v>`, `update`, `adjust`."""
 import itertools
+import re
 from framework import Case
 
 PROP = 'C16'
@@ -9,7 +10,7 @@ RULE = ('per node kind (data, time, space, space-time) and operation (update, ad
         'current coordinates x every sign pattern {-,0,+}^n of the grid values at the cells the node reads, magnitudes drawn '
         'from {1,2,3,7,2^31-1} (adjust additionally with deltas that make a result exactly -1/0/+1); every grid also holds '
         'distinct positive decoys at the coordinate permutations / neighbours of the expected cells (sometimes at every '
-        'in-bounds point), so a wrong cell is visible; real AdjustableData/Time/Space/SpaceTime<i64> and real ArrayGrids '
+        'in-bounds point), so a wrong cell is visible; real AdjustableData/Time/Space/SpaceTime<i64> (and <u64> for the cases without a negative value) and real ArrayGrids '
         '<i64,4,3,2,2> of the dimension the code expects (1D/1D/3D/4D) plus ~8% mismatched dimensions; stateful runs of '
         'several operations on one node; non-trivial = at least one update/adjust; distinct = sha256 of the case text')
 ASSUMPTIONS = ['values of T are mathematical integers: i64 values below 2^31 in the runs, so no overflow (overflow of a '
@@ -101,17 +102,17 @@ def sign_tests(rng, kind, ops_filter=('update', 'adjust'), sample=None):
             yield cur, new, op
 
 
-def pack(kind, gk, tests, rng, per_case=40, tags=()):
+def pack(kind, gk, tests, rng, per_case=40, tags=(), prefix=''):
     """tests -> cases of `node` / `grid` / op triples"""
     buf = []
     for cur, new, op in tests:
         garg, _ = grid_arg(rng, kind, gk, new, full=rng.random() < 0.05)
         buf.append((cur, [f'node {fmt(cur)}', f'grid {garg}', op]))
         if len(buf) == per_case:
-            yield Case(f'{kind} {gk} {fmt(buf[0][0])}', [l for _, ls in buf for l in ls], tags=tags)
+            yield Case(f'{prefix}{kind} {gk} {fmt(buf[0][0])}', [l for _, ls in buf for l in ls], tags=tags)
             buf = []
     if buf:
-        yield Case(f'{kind} {gk} {fmt(buf[0][0])}', [l for _, ls in buf for l in ls], tags=tags)
+        yield Case(f'{prefix}{kind} {gk} {fmt(buf[0][0])}', [l for _, ls in buf for l in ls], tags=tags)
 
 
 def stateful(rng, kind, gk, nops):
@@ -135,16 +136,29 @@ def stateful(rng, kind, gk, nops):
 
 
 def generate(rng, tier):
+    for c in _generate(rng, tier):
+        yield c
+        if 'mismatched-grid' not in c.tags and 'unsigned-T' not in c.tags:
+            u = unsigned_variant(c)
+            if u is not None and rng.random() < 0.5:
+                yield u
+
+
+def _generate(rng, tier):
     quick = tier == 'quick'
     # 1. exhaustive sign patterns on the grid kind the code expects
     for kind in ('data', 'time', 'space'):
         reps = 6 if kind != 'space' else 1
         for _ in range(reps if quick else reps * 4):
             yield from pack(kind, EXPECTED_GRID[kind], sign_tests(rng, kind), rng, tags=('sign-exhaustive',))
+            nonneg = [t for t in sign_tests(rng, kind) if all(v >= 0 for v in t[0]) and all(v >= 0 for v in t[1])]
+            yield from pack(kind, EXPECTED_GRID[kind], nonneg, rng, tags=('sign-exhaustive', 'unsigned-T'), prefix='u')
     # space-time: all 81 x 81 patterns x 2 ops (thorough: eight times, with other magnitudes)
     for _ in range(1 if quick else 8):
         yield from pack('spacetime', '4d', sign_tests(rng, 'spacetime', sample=None), rng,
                         tags=('sign-exhaustive',))
+        nonneg = [t for t in sign_tests(rng, 'spacetime', sample=None) if all(v >= 0 for v in t[0]) and all(v >= 0 for v in t[1])]
+        yield from pack('spacetime', '4d', nonneg, rng, tags=('sign-exhaustive', 'unsigned-T'), prefix='u')
     # 2. malformed stream: grids of a dimension the node does not expect
     for kind in N:
         for gk in BOUNDS:
@@ -157,8 +171,20 @@ def generate(rng, tier):
         yield stateful(rng, kind, gk, rng.randrange(5, 40))
 
 
+def unsigned_variant(case):
+    """the same case on AdjustableX<u64> / ArrayGrid<u64,…> (header kind `u<kind>`), when no value in it is negative"""
+    if re.search(r'(?<![0-9])-[0-9]', case.header + ' ' + ' '.join(case.ops)):
+        return None
+    return Case('u' + case.header, case.ops, build=case.build, tags=tuple(case.tags) + ('unsigned-T',))
+
+
 def corpus():
     """hand-made witnesses of the mutations this check was tested against (run first)"""
+    # unsigned element type: adjust with positive data and positive / zero deltas, update with zero
+    yield Case('udata 1d 4', ['grid 0,0,0,0=3;1,0,0,0=9', 'adjust', 'adjust', 'grid 0,0,0,0=0;1,0,0,0=9', 'adjust', 'update',
+                              'grid 0,0,0,0=7', 'update', 'adjust'], tags=('corpus', 'unsigned-T'))
+    yield Case('uspacetime 4d 1,2,3,4', ['grid 0,0,0,0=5;0,0,0,1=6;0,0,0,2=7;0,0,0,3=8', 'adjust', 'update', 'adjust',
+                                         'grid 0,0,0,0=5;0,0,0,1=0;0,0,0,2=7;0,0,0,3=8', 'update', 'adjust'], tags=('corpus', 'unsigned-T'))
     # a later coordinate inadmissible while the earlier ones are fine: a partial write would show
     yield Case('spacetime 4d 1,2,3,4', ['grid 0,0,0,0=5;0,0,0,1=0;0,0,0,2=7;0,0,0,3=8', 'update',
                                         'grid 0,0,0,0=5;0,0,0,1=6;0,0,0,2=0;0,0,0,3=8', 'update',
@@ -187,7 +213,7 @@ def exhaustive_small():
 def classify(case):
     kind, gk = case.header.split()[:2]
     t = [kind, 'grid-' + gk] + list(case.tags)
-    if gk != EXPECTED_GRID[kind]:
+    if gk != EXPECTED_GRID[kind[1:] if kind.startswith('u') else kind]:
         t.append('unexpected-grid-dimension')
     for k in ('update', 'adjust', 'set', 'grid', 'node'):
         n = sum(1 for o in case.ops if o == k or o.startswith(k + ' '))
